@@ -33,6 +33,16 @@ def describe(line_ints, verdict, case_json):
                                1: "contents of the store after Copy differ",
                                2: "contents of the store after a direct write differ (a copy shares storage with its original?)"}.get(d[0], d)
         out["theorem"] = "C09_history_agrees / C09_sort_pairs"
+    elif kind == 3:
+        out["step_index"] = pos
+        steps = case.get("steps", [])
+        if 0 <= pos < len(steps):
+            out["contents_at_that_step"] = steps[pos]
+        if d:
+            out["observable"] = STAT[d[0]] if 0 <= d[0] < len(STAT) else d[0]
+        out["what"] = ("one Sample whose Xs / Weights arrays are overwritten in place between the steps: the statistic observed "
+                       "after the overwrite differs from the fresh computation on the current contents (a result remembered per storage identity?)")
+        out["theorem"] = "C09_check_ok_sound (KSteps: every step satisfies stats_ok for the contents current at that step)"
     elif kind == 2:
         out["what"] = "vec.%s differs from its defining identity" % (["Linspace", "Logspace", "Sum", "Map/Vectorize", "Concat"][d[0]] if d and d[0] < 5 else "?")
     return out
